@@ -97,8 +97,9 @@ type rangeState struct {
 }
 
 type loopCtx struct {
-	base   map[string]Term // heap at loop head (after havoc)
-	wm     Term
+	base    map[string]Term // heap at loop head (after havoc)
+	entryWM Term
+	wm      Term
 	spec   *LoopSpec
 	header int
 }
